@@ -37,7 +37,7 @@ const char *mc_rule = "part A: DFS grid width 0..9 x id set (0, 2^k-1, 2^k, 2^k+
                       "nontrivial = id occupies the most significant header byte or does not fit. "
                       "part B: BFS over histories of arm (context width; in the :altarm jobs additionally once per history with id length 0, width-1, width+1, 4 or 5)/reply/context_reply/defer/handle reply/handle release/addref/unref x transport accepts|rejects on a fresh mpt_reply_deferrable context, "
                       "canonical-state dedupe; nontrivial = distinct (history, op) steps executed while a request is deferred, was rejected by the transport before, or a second request exists. "
-                      "part C: DFS over 1..2 requests x {zero id, id} x 7 handler scripts x {handler returns 0, returns an error} x 2 open modes, two further dispatch rounds after every delivery, x {one by one, queued together} through mpt_stream_input on a socketpair; nontrivial = two requests or a script other than none/reply";
+                      "part D: the same request/handler scripts (plus defer with late handle use, dispatch without handler) through mpt_connection_dispatch on a stream backed and on a datagram connection. part C: DFS over 1..2 requests x {zero id, id} x 7 handler scripts x {handler returns 0, returns an error} x 2 open modes, two further dispatch rounds after every delivery, x {one by one, queued together} through mpt_stream_input on a socketpair; nontrivial = two requests or a script other than none/reply";
 
 // =====================================================================
 // Part A
@@ -126,7 +126,9 @@ static void id_case(Run &r, ACnt &c, size_t w, uint64_t id, unsigned lead, bool 
 // Part B
 // =====================================================================
 // layout of the (file-local) struct reply_context_defer in reply_deferrable.c
-struct Mirror { void *send; void *ptr; uintptr_t ref; const void *mt_vptr; const void *ctx_vptr; uint16_t max, len; uint8_t val[4]; };
+// head = members in front of the metatype interface (a further reference counter may follow `ref`), tail = from the interface on
+struct Head { void *send; void *ptr; uintptr_t ref; uintptr_t users; };
+struct Tail { const void *mt_vptr; const void *ctx_vptr; uint16_t max, len; uint8_t val[4]; };
 // struct replyDataDelayed
 struct HMirror { const void *vptr; void *base; uint16_t max, len; uint8_t val[4]; };
 
@@ -154,7 +156,7 @@ static int transport(void *ptr, const mpt::reply_data *rd, const mpt::message *m
 
 struct Sys {
 	Run &r;
-	mpt::metatype *mt; Mirror *cx; mpt::reply_context *rc; mpt::reply_data *rd;
+	mpt::metatype *mt; Head *hd; Tail *cx; size_t pre; mpt::reply_context *rc; mpt::reply_data *rd;
 	int refs; bool attached; int armed; bool ctx_answered; bool altused;
 	struct Req { std::vector<uint8_t> id; int state; int accepted; int attempts; };
 	std::vector<Req> req;
@@ -165,7 +167,7 @@ struct Sys {
 	// per operation
 	int addr, calls, accepted_now; bool accept, bad, fin; const mpt::message *opmsg; std::string opgroup; bool msg_forwarded, msg_default, creply_wellformed;
 
-	Sys(Run &run, uint64_t) : r(run), mt(0), cx(0), rc(0), rd(0), refs(1), attached(true), armed(-1), ctx_answered(false), altused(false), token(0), step(0), addr(-1), calls(0), accept(true), bad(false), fin(false), opmsg(0)
+	Sys(Run &run, uint64_t) : r(run), mt(0), hd(0), cx(0), pre(0), rc(0), rd(0), refs(1), attached(true), armed(-1), ctx_answered(false), altused(false), token(0), step(0), addr(-1), calls(0), accept(true), bad(false), fin(false), opmsg(0)
 	{
 		g_sys = this;
 		ledger_reset();
@@ -173,14 +175,15 @@ struct Sys {
 		r.hint("mpt_reply_deferrable");
 		mt = LIB(mpt::mpt_reply_deferrable(g_idlen, transport, g_target ? &token : 0));
 		if (!mt) { r.incomplete("mpt_reply_deferrable failed"); refs = 0; return; }
-		cx = (Mirror *) ((char *) mt - offsetof(Mirror, mt_vptr));
-		if (!ledger_is_live(cx) || cx->send != (void *) transport || cx->ref != 1 || cx->max != g_idlen || cx->len != 0) { r.incomplete("struct reply_context_defer layout differs from the harness mirror"); }
+		cx = (Tail *) mt;
+		for (size_t p : {3 * sizeof(void *), 4 * sizeof(void *)}) if (ledger_is_live((char *) mt - p)) { pre = p; hd = (Head *) ((char *) mt - p); }
+		if (!hd || hd->send != (void *) transport || hd->ref != 1 || cx->max != g_idlen || cx->len != 0) { r.incomplete("struct reply_context_defer layout differs from the harness mirror"); }
 		LIB(mt->convert(mpt::TypeReplyPtr, &rc));
 	}
 	~Sys()
 	{
 		for (auto &h : hs) if (ledger_is_live(h.h)) free(h.h);
-		if (cx && ledger_is_live(cx)) free(cx);
+		if (hd && ledger_is_live(hd)) free(hd);
 		if (g_sys == this) g_sys = 0;
 	}
 	int nops() { return HBASE + 4 * g_R; }
@@ -294,18 +297,18 @@ struct Sys {
 			q.id[len - 1] = len > 1 ? (uint8_t) (k + 1) : q.id[0];
 		}
 		else for (int i = 0; i < len; ++i) q.id[i] = (uint8_t) (i ? 0xa0 + 3 * i + k : 0x50 + k);     // differs from every regular id in every byte
-		size_t dsz = offsetof(Mirror, val) + (size_t) std::max(g_idlen, 4);
-		std::vector<uint8_t> snapb((uint8_t *) cx, (uint8_t *) cx + dsz);
-		Mirror snap = *cx;
+		size_t dsz = pre + offsetof(Tail, val) + (size_t) std::max(g_idlen, 4);
+		std::vector<uint8_t> snapb((uint8_t *) hd, (uint8_t *) hd + dsz);
+		Tail snap = *cx; Head snaph = *hd;
 		mpt::reply_data *d = 0; mpt::reply_context *c = 0;
 		int c1 = LIB(mt->convert(mpt::TypeReplyDataPtr, &d));
 		if (c1 >= 0 && d) LIB(mt->convert(mpt::TypeReplyPtr, &c));
 		if (!c) { cnt("arm: no reply context available (not flagged)"); return false; }
 		int s = LIB(mpt::mpt_reply_set(d, len, q.id.data()));
 		std::string changed;
-		if (cx->send != snap.send) changed += " send-callback";
-		if (cx->ptr != snap.ptr) changed += " send-target";
-		if (cx->ref != snap.ref) changed += " refcount";
+		if (hd->send != snaph.send) changed += " send-callback";
+		if (hd->ptr != snaph.ptr) changed += " send-target";
+		if (hd->ref != snaph.ref || (pre > 3 * sizeof(void *) && hd->users != snaph.users)) changed += " refcount";
 		if (cx->mt_vptr != snap.mt_vptr) changed += " metatype-vptr";
 		if (cx->ctx_vptr != snap.ctx_vptr) changed += " reply_context-vptr";
 		if (cx->max != snap.max) changed += " id-capacity";
@@ -315,10 +318,10 @@ struct Sys {
 		if (s < 0) {
 			// a refused arm must leave the pending request (length and id bytes) alone; besides this snapshot the canonical state
 			// carries the context's id bytes, so a silently replaced id is also followed to the next reply by the transport oracle
-			if (memcmp(snapb.data(), cx, dsz)) {
+			if (memcmp(snapb.data(), hd, dsz)) {
 				bad = true;
 				r.violation(std::string("arm|") + (armed >= 0 ? "armed" : "no-request") + "|refused-arm-changed-reply-data", fmt("idlen=%d target=%s ", g_idlen, g_target ? "set" : "NULL") + history() + ": " + fmt("mpt_reply_set(%d-byte id %s) on a %d-byte context returned %d but changed the stored request: len %u -> %u, id %s -> %s", len, hex(q.id.data(), len).c_str(), g_idlen, s,
-				     (unsigned) snap.len, (unsigned) cx->len, hex(snapb.data() + offsetof(Mirror, val), snap.len).c_str(), hex(cx->val, std::min<size_t>(cx->len, std::max(g_idlen, 4))).c_str()));
+				     (unsigned) snap.len, (unsigned) cx->len, hex(snapb.data() + pre + offsetof(Tail, val), snap.len).c_str(), hex(cx->val, std::min<size_t>(cx->len, std::max(g_idlen, 4))).c_str()));
 				return true;
 			}
 			cnt(alt < 0 ? "arm: mpt_reply_set refused (not flagged)" : "arm with a too long id refused, pending request untouched");
@@ -356,7 +359,7 @@ struct Sys {
 		if (!calls) {
 			if (expect) {
 				if (q.attempts) fail("retry-not-sent", fmt("the transport rejected the earlier send; the retry was not passed to the transport (returned %d)", ret));
-				else { cnt("first attempt never reached the transport (not flagged)"); if (ret >= 0) { q.state = DROPPED; armed = -1; } }
+				else cnt("first attempt never reached the attached transport (request stays unanswered; its default reply is demanded at release)");
 			}
 			else if (!attached) { cnt("reply on detached transport dropped"); q.state = DROPPED; armed = -1; }
 			else cnt("reply without target: nothing sent");
@@ -404,23 +407,28 @@ struct Sys {
 		return true;
 	}
 
+	// The transport stays attached as long as a metatype reference (the connection, copies of its reference) is held; deferred
+	// handles alone do not keep it.  Releasing the last metatype reference releases the context: a request still armed on it gets
+	// its default reply while the transport is still valid, afterwards the remaining handles are detached.
 	bool do_unref(bool acc)
 	{
 		if (refs < 1) return false;
-		bool last = refs == 1 && hs.empty();
+		bool last = refs == 1;
 		begin("unref", last ? armed : -1, acc);
 		bool expect = last && armed >= 0 && attached && g_target;
 		LIB(mt->unref());
 		--refs;
 		if (mem()) return true;
 		if (expect) {
-			if (calls == 0) fail("no-default-reply", "context released with an unanswered armed request and attached transport: no default reply was sent");
+			if (calls == 0) fail("no-default-reply", std::string("context released with an unanswered armed request and attached transport") + (hs.empty() ? "" : " (deferred handles remain)") + ": no default reply was sent");
 			else if (calls > 1) fail("default-reply-repeated", fmt("%d default replies were sent", calls));
 			else cnt(accept ? "context released: one default reply accepted" : "context released: one default reply attempted, transport rejected");
+			if (!bad && !hs.empty()) cnt("context released while handles remain: armed request got its default reply first");
 		} else if (last) cnt("context released, nothing to answer");
-		if (!last) { if (attached) cnt("unref with remaining references detaches the transport"); attached = false; }
+		else cnt("unref of a further metatype reference: transport stays attached");
 		if (refs == 0) {
-			if (armed >= 0 && req[armed].state == ARMED) { req[armed].state = DROPPED; if (!last) cnt("armed request dropped when the owner left while handles remain (not flagged)"); }
+			if (!hs.empty()) { cnt("last metatype reference released while handles remain: transport detached"); attached = false; }
+			if (armed >= 0 && req[armed].state == ARMED) req[armed].state = DROPPED;
 			armed = -1; mt = 0; rc = 0; rd = 0;
 		}
 		return true;
@@ -474,7 +482,7 @@ struct Sys {
 		s += " | handles:";
 		for (auto &h : hs) { s += fmt(" #%d", h.req); if (ledger_is_live(h.h)) { HMirror *m = (HMirror *) h.h; s += fmt("(len=%u id=%s)", (unsigned) m->len, hex(m->val, std::min<size_t>(m->len, cap)).c_str()); } else s += "(dead)"; }
 		// the stored id bytes are part of the state: a request id replaced behind the model's back yields a new state that is explored up to its reply
-		if (cx && ledger_is_live(cx)) s += fmt(" | ctx: ref=%lu len=%u id=%s send=%d", (unsigned long) cx->ref, (unsigned) cx->len, hex(cx->val, std::min<size_t>(cx->len, cap)).c_str(), cx->send != 0);
+		if (hd && ledger_is_live(hd)) s += fmt(" | ctx: ref=%lu len=%u id=%s send=%d", (unsigned long) hd->ref, (unsigned) cx->len, hex(cx->val, std::min<size_t>(cx->len, cap)).c_str(), hd->send != 0);
 		else s += " | ctx: freed";
 		return s;
 	}
@@ -497,7 +505,7 @@ enum Script { S_NONE, S_REPLY, S_REPLY_TWICE, S_BUSY, S_BUSY_RETRY, S_DEFER, S_C
 static const char *scriptnm[] = {"no answer", "reply(msg)", "reply(msg) twice", "reply(msg) while an outgoing message is open", "reply(msg) while busy, finish message, retry", "defer() then no answer", "mpt_context_reply"};
 
 struct SReq { std::vector<uint8_t> id; bool wants; int script; bool fail; int r1, r2; bool handled, had_ctx, deferred_handle; int onwire, delivered; };
-struct SCase { Run *r; int idlen; std::vector<SReq> rq; size_t next; SMirror *sm; bool layout_bad; bool busy_left; int stray; };
+struct SCase { Run *r; int idlen; std::vector<SReq> rq; size_t next; SMirror *sm; bool layout_bad; bool busy_left; int stray; mpt::reply_context *saved; int late_ret, late_calls; };
 
 static std::vector<uint8_t> cobs(const std::vector<uint8_t> &in)
 {
@@ -533,6 +541,7 @@ static int stream_handler(void *arg, mpt::event *ev)
 	q.had_ctx = rc != 0;
 	if (!rc) return q.fail ? mpt::BadOperation : 0;
 	if ((void *) rc != (void *) &c.sm->rc_vptr || c.sm->max != c.idlen) { c.layout_bad = true; return 0; }
+	c.saved = rc;
 	mpt::msgtype hdr(mpt::msgtype::Answer, 0);
 	mpt::message m(&hdr, sizeof(hdr));
 	switch (q.script) {
@@ -547,7 +556,7 @@ static int stream_handler(void *arg, mpt::event *ev)
 }
 static void stream_case(Run &r, Ctx &x, int idlen)
 {
-	SCase c; c.r = &r; c.idlen = idlen; c.next = 0; c.sm = 0; c.layout_bad = false; c.busy_left = false; c.stray = 0;
+	SCase c; c.r = &r; c.idlen = idlen; c.next = 0; c.sm = 0; c.layout_bad = false; c.busy_left = false; c.stray = 0; c.saved = 0; c.late_ret = 1; c.late_calls = 0;
 	bool enc_mode = x.choose(2) != 0;               // 0: RdWr|Buffer as every caller in the tree passes it; 1: Write|RdWr|Buffer (installs the output encoder)
 	size_t n = 1 + x.choose(2);
 	for (size_t k = 0; k < n; ++k) {
@@ -557,7 +566,8 @@ static void stream_case(Run &r, Ctx &x, int idlen)
 		c.rq.push_back(q);
 	}
 	bool together = n > 1 && x.choose(2) != 0;
-	std::string desc = fmt("stream input idlen=%d mode=%s%s:", idlen, enc_mode ? "Write|RdWr|Buffer" : "RdWr|Buffer", together ? " both requests queued before dispatch" : "");
+	bool late = x.choose(2) != 0;                   // another reply(msg) through the context the handler was given, after the dispatch returned
+	std::string desc = fmt("stream input idlen=%d mode=%s%s%s:", idlen, enc_mode ? "Write|RdWr|Buffer" : "RdWr|Buffer", together ? " both requests queued before dispatch" : "", late ? ", late reply(msg) after dispatch" : "");
 	for (auto &q : c.rq) desc += " [id " + hex(q.id.data(), idlen) + ", handler: " + scriptnm[q.script] + (q.fail ? ", returns an error" : "") + "]";
 	r.note("%s", desc.c_str());
 	++r.transitions;
@@ -581,6 +591,7 @@ static void stream_case(Run &r, Ctx &x, int idlen)
 		for (int guard = 0; guard < 8; ++guard) { int ret = round(true); if (ret < 0 || !(ret & mpt::event::Retry)) break; }
 		// the event loop comes back: further dispatch rounds without new input must not deliver (and answer) anything again
 		for (int extra = 0; extra < 2; ++extra) round(false);
+		if (late && c.saved) { mpt::msgtype hdr(mpt::msgtype::Answer, 0); mpt::message m(&hdr, sizeof(hdr)); c.late_ret = LIB(c.saved->reply(&m)); ++c.late_calls; }
 	};
 	bool ok = true;
 	if (together) { for (auto &q : c.rq) ok = ok && send(q); pump(); }
@@ -648,8 +659,158 @@ static void stream_case(Run &r, Ctx &x, int idlen)
 			break;
 		}
 	}
+	if (c.late_calls) { nontriv = true; r.count(c.late_ret < 0 ? "stream: late reply attempt after the dispatch refused" : "stream: late reply attempt after the dispatch accepted (at most one reply on the wire)"); }
 	if (garbled) r.count("stream: undecodable bytes on the wire (not flagged)");
 	if (leaked) { r.violation("stream.release|all-released|leak", desc + fmt(" %zu block(s) still allocated after the input was released", leaked)); return; }
+	if (nontriv) r.count("nontrivial");
+	++r.states;
+}
+
+// =====================================================================
+// Part D: mpt_connection_dispatch() — the dispatcher that arms the deferrable reply context with its real transports
+// (replyConnection -> mpt_stream_reply for a stream backed connection, mpt_outdata_reply for a datagram socket).
+// =====================================================================
+enum CScript { C_NONE, C_REPLY, C_REPLY_TWICE, C_CREPLY, C_DEFER_REPLY, C_DEFER_RELEASE, C_DISCARD, C_NSCRIPT };
+static const char *cscriptnm[] = {"no answer", "reply(msg)", "reply(msg) twice", "mpt_context_reply", "defer(), handle.reply(msg) after the dispatch", "defer(), handle released after the dispatch", "dispatch without handler (discard)"};
+struct CReq { std::vector<uint8_t> id; bool wants; int script; bool fail; int r1, r2; bool handled, had_ctx; int onwire, delivered; mpt::reply_context_detached *handle; };
+struct CCase { std::vector<CReq> rq; int stray; };
+static int conn_handler(void *arg, mpt::event *ev)
+{
+	CCase &c = *(CCase *) arg;
+	uint8_t pl[2] = {0, 0};
+	if (!ev->msg) { ++c.stray; return 0; }
+	mpt::message body = *ev->msg;
+	if (mpt::mpt_message_read(&body, 2, pl) < 2 || pl[0] != 'r' || pl[1] < '0' || (size_t) (pl[1] - '0') >= c.rq.size()) { ++c.stray; return 0; }
+	CReq &q = c.rq[pl[1] - '0'];
+	q.handled = true; ++q.delivered;
+	mpt::reply_context *rc = ev->reply;
+	q.had_ctx = rc != 0;
+	if (!rc) return q.fail ? mpt::BadOperation : 0;
+	mpt::msgtype hdr(mpt::msgtype::Answer, 0);
+	mpt::message m(&hdr, sizeof(hdr));
+	switch (q.script) {
+	case C_REPLY: q.r1 = LIB(rc->reply(&m)); break;
+	case C_REPLY_TWICE: q.r1 = LIB(rc->reply(&m)); q.r2 = LIB(rc->reply(&m)); break;
+	case C_CREPLY: q.r1 = LIB(mpt::mpt_context_reply(rc, 3, "%s", "text")); break;
+	case C_DEFER_REPLY: case C_DEFER_RELEASE: q.handle = LIB(rc->defer()); break;
+	}
+	return q.fail ? mpt::BadOperation : 0;
+}
+static void conn_case(Run &r, Ctx &x, int idlen, bool dgram)
+{
+	CCase c; c.stray = 0;
+	size_t n = 1 + x.choose(2);
+	for (size_t k = 0; k < n; ++k) {
+		CReq q; q.wants = x.choose(2) == 0; q.script = (int) x.choose(C_NSCRIPT); q.fail = x.choose(2) != 0; q.r1 = q.r2 = 1; q.handled = q.had_ctx = false; q.onwire = q.delivered = 0; q.handle = 0;
+		q.id.assign(idlen, 0);
+		if (q.wants) { for (int i = 0; i < idlen; ++i) q.id[i] = (uint8_t) (0x11 * (i + 1) + k); q.id[0] = idlen > 1 ? (k ? 0x7f : 0x00) : (uint8_t) (k ? 0x7e : 0x01); q.id[idlen - 1] = idlen > 1 ? (uint8_t) (5 + k) : q.id[0]; }
+		c.rq.push_back(q);
+	}
+	bool together = !dgram && n > 1 && x.choose(2) != 0;
+	bool handles_first = x.choose(2) != 0;          // deferred handles are used before / after the connection dispatched everything
+	const char *grp = dgram ? "dgram" : "conn";
+	std::string desc = fmt("%s connection idlen=%d%s%s:", dgram ? "datagram" : "stream backed", idlen, together ? " both requests queued before dispatch" : "", handles_first ? "" : ", handles used after all dispatches");
+	for (auto &q : c.rq) desc += " [id " + hex(q.id.data(), idlen) + ", " + cscriptnm[q.script] + (q.fail && q.script != C_DISCARD ? ", handler returns an error" : "") + "]";
+	r.note("%s", desc.c_str());
+	++r.transitions;
+	int sv[2];
+	if (socketpair(AF_UNIX, dgram ? SOCK_DGRAM : SOCK_STREAM, 0, sv) < 0) { r.incomplete("socketpair failed"); return; }
+	fcntl(sv[0], F_SETFL, O_NONBLOCK); fcntl(sv[1], F_SETFL, O_NONBLOCK);
+	ledger_reset(); asan_error();
+	r.hint(dgram ? "dgram.dispatch" : "conn.dispatch");
+	mpt::connection *con = (mpt::connection *) calloc(1, sizeof(mpt::connection));
+	con->out.sock._id = -1;
+	mpt::stream *srm = 0;
+	mpt::socket sock; sock._id = sv[0];
+	if (dgram) {
+		if (LIB(mpt::mpt_connection_assign(con, &sock)) < 0) { close(sv[0]); close(sv[1]); free(con); r.incomplete("mpt_connection_assign failed"); return; }
+		close(sv[0]);      // the connection works on its own duplicate
+	} else {
+		// what mpt_connection_open() builds for a stream target
+		srm = (mpt::stream *) LIB(calloc(1, sizeof(mpt::stream)));
+		srm->_rd._state.data.msg = -1;
+		srm->_wd._enc = mpt::mpt_message_encoder(mpt::EncodingCobs);
+		srm->_rd._dec = mpt::mpt_message_decoder(mpt::EncodingCobs);
+		if (LIB(mpt::mpt_stream_dopen(srm, &sock, mpt::stream::RdWr | mpt::stream::Buffer)) < 0) { close(sv[0]); close(sv[1]); free(srm); free(con); r.incomplete("mpt_stream_dopen failed"); return; }
+		*(void **) &con->out.buf = srm;
+	}
+	con->out._idlen = (uint8_t) idlen;
+	auto send = [&](const CReq &q) { std::vector<uint8_t> m(q.id); m.push_back('r'); m.push_back((uint8_t) ('0' + (&q - &c.rq[0]))); if (!dgram) m = cobs(m); return write(sv[1], m.data(), m.size()) == (ssize_t) m.size(); };
+	auto use_handle = [&](CReq &q) {
+		if (!q.handle) return;
+		mpt::msgtype hdr(mpt::msgtype::Answer, 0); mpt::message m(&hdr, sizeof(hdr));
+		if (q.script == C_DEFER_REPLY) { q.r1 = LIB(q.handle->reply(&m)); if (q.r1 < 0) LIB(q.handle->reply(0)); }
+		else LIB(q.handle->reply(0));
+		q.handle = 0;
+	};
+	auto dispatch_one = [&](const CReq &q) {
+		if (dgram) LIB(mpt::mpt_outdata_recv(&con->out)); else LIB(mpt::mpt_stream_poll(srm, POLLIN, 0));
+		return LIB(mpt::mpt_connection_dispatch(con, q.script == C_DISCARD ? 0 : conn_handler, &c));
+	};
+	bool ok = true;
+	if (together) {
+		for (auto &q : c.rq) ok = ok && send(q);
+		for (auto &q : c.rq) { dispatch_one(q); if (q.script == C_DISCARD) { q.handled = true; ++q.delivered; } }
+		for (int extra = 0; extra < 2; ++extra) LIB(mpt::mpt_connection_dispatch(con, conn_handler, &c));
+		for (auto &q : c.rq) use_handle(q);
+	} else {
+		for (auto &q : c.rq) {
+			ok = ok && send(q);
+			dispatch_one(q); if (q.script == C_DISCARD) { q.handled = true; ++q.delivered; }
+			for (int extra = 0; extra < 2; ++extra) LIB(mpt::mpt_connection_dispatch(con, conn_handler, &c));
+			if (handles_first) use_handle(q);
+		}
+		for (auto &q : c.rq) use_handle(q);
+	}
+	if (srm) LIB(mpt::mpt_stream_flush(srm));
+	std::vector<std::vector<uint8_t>> msgs; bool garbled = false; std::string wtxt = " wire:";
+	if (dgram) {
+		for (int i = 0; i < 8; ++i) { uint8_t b[512]; ssize_t g = read(sv[1], b, sizeof b); if (g < 0) break; msgs.push_back(std::vector<uint8_t>(b, b + g)); wtxt += " [" + hex(b, g) + "]"; }
+	} else {
+		uint8_t wire[4096]; ssize_t got = read(sv[1], wire, sizeof wire); if (got < 0) got = 0;
+		wtxt += " " + hex(wire, got);
+		for (ssize_t i = 0, b = 0; i < got; ++i) { if (wire[i]) continue; std::vector<uint8_t> m; if (!uncobs(wire + b, i - b, m)) garbled = true; msgs.push_back(m); b = i + 1; }
+	}
+	LIB(mpt::mpt_connection_fini(con));
+	free(con);
+	if (!dgram) close(sv[0]);       // harmless if the stream closed it already
+	close(sv[1]);
+	bool mem = asan_error();
+	size_t leaked = ledger_live();
+	if (!ok) { r.incomplete("short write on the socketpair"); return; }
+	if (mem) { r.violation(std::string(grp) + ".dispatch|any|memory", desc + " invalid memory access (AddressSanitizer)"); return; }
+	for (auto &m : msgs) {
+		if ((int) m.size() < idlen) { r.violation(std::string(grp) + ".reply|any|unknown-id", desc + " message shorter than an id on the wire;" + wtxt); return; }
+		std::vector<uint8_t> id(m.begin(), m.begin() + idlen);
+		bool marked = id[0] & 0x80; id[0] &= 0x7f;
+		CReq *hit = 0;
+		for (auto &q : c.rq) if (q.wants && q.id == id) hit = &q;
+		if (!hit) { r.violation(std::string(grp) + ".reply|any|unknown-id", desc + " reply id " + hex(m.data(), idlen) + " belongs to no request that asked for a reply;" + wtxt); return; }
+		if (!marked) { r.violation(std::string(grp) + ".reply|any|reply-marker-missing", desc + " reply id " + hex(m.data(), idlen) + " is the request id without the reply bit;" + wtxt); return; }
+		if (++hit->onwire > 1) { r.violation(std::string(grp) + ".reply|answered|second-reply-accepted", desc + " two replies for request id " + hex(hit->id.data(), idlen) + ";" + wtxt); return; }
+	}
+	bool nontriv = n > 1;
+	for (auto &q : c.rq) {
+		std::string pfx = std::string(grp) + ": ";
+		if (!q.handled) {
+			if (q.wants && !dgram) { r.violation("conn.dispatch|pending|request-starved", desc + " request id " + hex(q.id.data(), idlen) + " was never dispatched;" + wtxt); return; }
+			r.count(pfx + "request not delivered to the handler (not flagged)"); continue;
+		}
+		if (!q.wants) { r.count(pfx + "zero id request dispatched, nothing on the wire for it"); continue; }
+		if (q.script != C_DISCARD && !q.had_ctx) { r.count(pfx + "request with id got no reply context (not flagged)"); continue; }
+		if (q.script != C_NONE && q.script != C_REPLY) nontriv = true;
+		if (q.script == C_REPLY_TWICE && q.r1 >= 0 && q.r2 >= 0) { r.violation(std::string(grp) + ".reply|answered|further-attempt-not-refused", desc + fmt(" second reply() after an accepted one returned %d;", q.r2) + wtxt); return; }
+		// the transport is attached and idle in every script: every request with an id ends with exactly one reply
+		if (!q.onwire) {
+			if (!dgram) { r.violation("conn.dispatch|armed|no-default-reply", desc + " request id " + hex(q.id.data(), idlen) + " (" + cscriptnm[q.script] + ") ended without any reply on the wire;" + wtxt); return; }
+			r.count(pfx + "no reply on the wire (not flagged)"); continue;
+		}
+		r.count(pfx + cscriptnm[q.script] + ": exactly one reply on the wire, full id, marked");
+		if (q.fail && q.script != C_DISCARD) r.count(pfx + "handler returned an error, exactly one reply on the wire");
+	}
+	if (c.stray) r.count(std::string(grp) + ": dispatch without a recognisable request (not flagged)");
+	if (garbled) r.count(std::string(grp) + ": undecodable bytes on the wire (not flagged)");
+	if (leaked) { r.violation(std::string(grp) + ".release|all-released|leak", desc + fmt(" %zu block(s) still allocated after mpt_connection_fini", leaked)); return; }
 	if (nontriv) r.count("nontrivial");
 	++r.states;
 }
@@ -665,6 +826,8 @@ void mc_jobs(Tier t, std::vector<std::string> &jobs)
 	else for (int l : thorough_idlen) for (int tg = 1; tg >= 0; --tg) jobs.push_back(fmt("proto:idlen=%d:target=%d:altarm", l, tg));
 	for (int w = 0; w <= 9; ++w) jobs.push_back(fmt("ids:w=%d", w));
 	for (int l : {1, 2, 4, 5, 8, 9, 12, 16}) jobs.push_back(fmt("stream:idlen=%d", l));
+	for (int l : {1, 2, 4, 5, 9}) jobs.push_back(fmt("conn:idlen=%d", l));
+	for (int l : {1, 2, 5}) jobs.push_back(fmt("dgram:idlen=%d", l));
 }
 static int proto_setup(Tier t, const std::string &job)
 {
@@ -709,11 +872,20 @@ void mc_explore(Run &r, const std::string &job)
 		if (w == 9) r.require("ids: 9-byte header above 2^64 refused by decoder");
 		return;
 	}
+	if (job.compare(0, 5, "conn:") == 0 || job.compare(0, 6, "dgram:") == 0) {
+		bool dg = job[0] == 'd';
+		int l = atoi(job.c_str() + (dg ? 12 : 11));
+		if (!dg) for (int k = 0; k < C_NSCRIPT; ++k) r.require(std::string("conn: ") + cscriptnm[k] + ": exactly one reply on the wire, full id, marked");
+		if (!dg) r.require("conn: handler returned an error, exactly one reply on the wire");
+		if (l == 2) r.sample(fmt("%s connection idlen=2: 1..2 requests x {zero id, id} x 7 scripts (no answer, reply, reply twice, mpt_context_reply, defer+late reply, defer+release, dispatch without handler) x handler result {0, error} through mpt_connection_dispatch; replies read at the peer", dg ? "datagram" : "stream backed"));
+		dfs(r, [&](Ctx &x) { conn_case(r, x, l, dg); });
+		return;
+	}
 	if (job.compare(0, 7, "stream:") == 0) {
 		int l = atoi(job.c_str() + 13);
 		static const char *need[] = {"stream: unanswered request got exactly one default reply", "stream: explicit reply on the wire once, marked", "stream: mpt_context_reply on the wire once, marked",
 			"stream: second reply attempt refused, one reply on the wire", "stream: retry after busy transport accepted, one reply on the wire", "stream: zero id, no reply context, nothing sent",
-			"stream: defer unsupported (NULL), one default reply", "stream: handler returned an error, exactly one reply on the wire"};
+			"stream: defer unsupported (NULL), one default reply", "stream: handler returned an error, exactly one reply on the wire", "stream: late reply attempt after the dispatch refused"};
 		for (const char *k : need) r.require(k);
 		if (l == 2) r.sample("stream input idlen=2: 1..2 COBS requests over a socketpair x handler scripts {no answer, reply, reply twice, reply while busy, busy+retry, defer, mpt_context_reply}; replies read back from the peer's end");
 		dfs(r, [&](Ctx &x) { stream_case(r, x, l); });
@@ -724,7 +896,8 @@ void mc_explore(Run &r, const std::string &job)
 		"deferred reply rejected by transport, handle kept", "deferred retry after rejected send accepted", "handle released: one default reply accepted",
 		"handle released: one default reply attempted, transport rejected", "context released: one default reply accepted", "context released: one default reply attempted, transport rejected",
 		"further reply attempt after the answer refused", "everything released: ledger checked", "two requests outstanding at once", "reply message forwarded to transport",
-		"mpt_context_reply: Answer header + text delivered", "unref with remaining references detaches the transport", "deferred reply on detached transport dropped", "reply on detached transport dropped"};
+		"mpt_context_reply: Answer header + text delivered", "last metatype reference released while handles remain: transport detached", "deferred reply on detached transport dropped",
+		"unref of a further metatype reference: transport stays attached", "context released while handles remain: armed request got its default reply first"};
 	static const char *need_n[] = {"armed", "deferred", "reply without target: nothing sent", "everything released: ledger checked"};
 	if (g_target) for (const char *k : need_t) r.require(k); else for (const char *k : need_n) r.require(k);
 	if (g_alt) { r.require("arm with a too long id refused, pending request untouched"); r.require("arm with an empty id accepted: nothing armed"); if (g_idlen > 1) r.require("armed with a shorter id than the context width"); }
@@ -744,6 +917,7 @@ void mc_replay(Run &r, const std::string &job, const Vec &v)
 		dfs_replay(r, [&](Ctx &x) { id_body(r, c, job, ids, x); }, v);
 		return;
 	}
+	if (job.compare(0, 5, "conn:") == 0 || job.compare(0, 6, "dgram:") == 0) { bool dg = job[0] == 'd'; int l = atoi(job.c_str() + (dg ? 12 : 11)); dfs_replay(r, [&](Ctx &x) { conn_case(r, x, l, dg); }, v); return; }
 	if (job.compare(0, 7, "stream:") == 0) { int l = atoi(job.c_str() + 13); dfs_replay(r, [&](Ctx &x) { stream_case(r, x, l); }, v); return; }
 	proto_setup(r.tier, job);
 	bfs_replay<Sys>(r, v);
